@@ -121,6 +121,7 @@ type opsOutcome struct {
 	failWhat   string
 	touched    bool // an operation ran on an attribute position, or a sibling move succeeded
 	quirkQ1    int
+	outOfScope bool // the sequence performs Q2 (MoveToRoot on an attribute position of the reference)
 }
 
 func initRegs(n xpath.NodeNavigator) []xpath.NodeNavigator {
@@ -164,6 +165,10 @@ func runOps(d *docCtx, startIdx int, ops []opRec) *opsOutcome {
 			t := xr[o.X].NodeType()
 			onRoot, onAttr = t == xpath.RootNode, t == xpath.AttributeNode
 		}()
+		if o.Kind == "move" && o.Arg == "Root" && onAttr {
+			out.outOfScope = true
+			break
+		}
 		a := applyOp(xr, o)
 		b := applyOp(ir, o)
 		out.xres = append(out.xres, a)
@@ -267,4 +272,25 @@ func coqRun(start []int, ops []opRec, out *opsOutcome) string {
 		is[i] = v.coq()
 	}
 	return "(mkRun " + coqPath(start) + " " + vh.CoqList(os) + "\n   " + vh.CoqList(xs) + "\n   " + vh.CoqList(is) + ")"
+}
+
+// shrinkOps removes operations one at a time as long as the same oracle clause still fails and
+// the sequence stays inside the scope of the reference (no Q2).
+func shrinkOps(d *docCtx, startIdx int, ops []opRec, what string) []opRec {
+	cur := append([]opRec(nil), ops...)
+	for changed := true; changed; {
+		changed = false
+		for i := len(cur) - 2; i >= 0; i-- {
+			cand := append(append([]opRec(nil), cur[:i]...), cur[i+1:]...)
+			out := runOps(d, startIdx, cand)
+			if !out.outOfScope && out.failAt >= 0 && out.failWhat == what {
+				cur = cand[:out.failAt+1]
+				changed = true
+				if i > len(cur)-1 {
+					i = len(cur) - 1
+				}
+			}
+		}
+	}
+	return cur
 }
